@@ -52,7 +52,7 @@ class C15(Check):
             "pruning metrics when that sequence has no ties, and with 'smallest crowding computed once' for cd / ce; the survival itself is compared with the model "
             "(recorded crowding values and permutation); for 15% of the fronts (most of them tie-rich, with extremes held by several different points) the crowding vectors "
             "of all metrics on both engines (worker processes; pcd with 3+ objectives on the pure-Python engine only) are judged for EVERY tie-break of the cut: no holder "
-            "set of a minimum / maximum may be droppable when >= 2*n_obj members are kept; non-trivial = at least 2 members dropped; distinct by hash")
+            "set of a minimum / maximum may be droppable when >= 2*n_obj members are kept; 30% of the survival calls are made on an operator object that has truncated another front, or the same front to another size (or not at all), before; non-trivial = at least 2 members dropped; distinct by hash")
     ASSUMPTIONS = ["the boundary clause is a theorem about any crowding vector that is +inf on a set E with |{inf}| <= kept; that each metric puts +inf on holders of every "
                    "objective's minimum and maximum is established by C13's correspondence and oracle, not proved (partial)",
                    "'pruning one at a time' for the compiled engine relies on the tested (not proved) agreement of the incremental kernels with recomputation from scratch"]
@@ -83,8 +83,12 @@ class C15(Check):
                 cf = self.rng.choice(["cd", "ce", "mnn", "2nn"])
             k = self.rng.randint(1, N)
             G = [[] for _ in range(N)]
-            yield {"F": F.tolist(), "G": G, "H": G, "n_survive": k, "cls": "RankAndCrowding", "cf": cf, "style": style, "feasmode": "unconstrained",
-                   "seed": self.rng.randrange(2 ** 31)}
+            case = {"F": F.tolist(), "G": G, "H": G, "n_survive": k, "cls": "RankAndCrowding", "cf": cf, "style": style, "feasmode": "unconstrained",
+                    "seed": self.rng.randrange(2 ** 31)}
+            if self.rng.random() < 0.3:
+                # the survival object of an algorithm lives for the whole run: it has truncated another front, or the same front to another size, before
+                case["prime"] = self.rng.choice(["other", "same", "samefull"])
+            yield case
 
     def run(self, case):
         if case.get("kind") == "dvec":
